@@ -883,6 +883,17 @@ class Engine:
                         continue
                     if not fits(v1, acc.elem):
                         raise Unsupported(f"yield of {v1.kind!r} into generator of {acc.elem!r}")
+                    if getattr(self, "pointwise_yield", False):
+                        # opt-in (`pointwise_yield()`): the grown sequence is a fresh constant described position by
+                        # position (equal to acc ++ [v]; easier for the solvers than nth over a concatenation)
+                        r = z3.FreshConst(acc.t.sort(), "yld")
+                        n0 = z3.Length(acc.t)
+                        kq = z3.FreshConst(z3.IntSort(), "yk")
+                        s5 = s3.assume(z3.Length(r) == n0 + 1).assume(r[n0] == box(v1, acc.elem))
+                        s5 = s5.assume(z3.ForAll([kq], z3.Implies(And(kq >= 0, kq < n0), r[kq] == acc.t[kq])))
+                        s5 = s5.assume(r == z3.Concat(acc.t, z3.Unit(box(v1, acc.elem))))
+                        outs.append(Outcome("normal", s5.bind("_yield", ListV(acc.elem, r))))
+                        continue
                     outs.append(Outcome("normal", s3.bind("_yield", ListV(acc.elem, z3.Concat(acc.t, z3.Unit(box(v1, acc.elem)))))))
                 return outs
             for s3, v1 in self.split(s2, v):
